@@ -36,29 +36,35 @@ META = {
 
 MC_INV = ["TypeOK", "AttrsImmutable", "LinesCorrect", "NoSiblingLeak", "TreeShape"]
 REC_INV = ["TypeOK", "AttrsImmutable", "LinesCorrect", "NoSiblingLeak", "RecordsImmutable", "RecordStorageUntouched",
-           "NoPanic", "ItemBound"]
+           "NoPanic", "ItemBound", "StaleOnlyAfterError", "NotWedged", "LinesAreTheGoodCalls"]
 MC_PROP = ["OneLinePerLog", "Frozen"]
 CONC_INV = ["TypeOK", "BufExclusive", "MsgOwned", "ItemsBound", "NoPanic", "OneWriter", "WriterHoldsLock", "LinesCorrect",
-            "NoTornLine", "OneLinePerRecord", "EveryRecordWritten"]
+            "NoTornLine", "OneLinePerRecord", "EveryRecordWritten", "Returns", "CleanAtEnd"]
+# with Write errors among the faults: what a sticky and a non-sticky implementation both owe
+CONC_INV_WEAK = [i for i in CONC_INV if i not in ("EveryRecordWritten", "Returns")] + \
+                ["ReturnsWeak", "LinesMatchReturns", "StaleOnlyAfterError"]
 
 
 def log_consts(levels, thr, batches, recs, maxh, maxlogs, maxgroups, steps, clip=True, emit_all=None,
-               shapes="NoShapes", sizes="SizesNone", relogs=0, share=True, clone=True, rebind=False):
+               shapes="NoShapes", sizes="SizesNone", relogs=0, share=True, clone=True, rebind=False,
+               faults="NoFaults", maxfaults=0, defer_unlock=True, sticky=True):
     tf = lambda b: "TRUE" if b else "FALSE"
     c = {"Levels": "<- " + levels, "Thresholds": "<- " + thr,
          "Batches": "{%s}" % ", ".join(map(str, batches)), "RecSizes": "{%s}" % ", ".join(map(str, recs)),
          "RecShapes": "<- " + shapes, "Sizes": "<- " + sizes, "LargeSizes": "<- Large",
          "MaxH": maxh, "MaxLogs": maxlogs, "MaxRelogs": relogs, "MaxGroups": maxgroups, "MaxSteps": steps,
-         "ClipOnDerive": tf(clip), "ShareOnCopy": tf(share), "CloneBeforeAdd": tf(clone), "RebindOnLarge": tf(rebind)}
+         "ClipOnDerive": tf(clip), "ShareOnCopy": tf(share), "CloneBeforeAdd": tf(clone), "RebindOnLarge": tf(rebind),
+         "Faults": "<- " + faults, "MaxFaults": maxfaults, "DeferUnlock": tf(defer_unlock), "StickyError": tf(sticky)}
     if emit_all is not None:
         c["EmitAll"] = tf(emit_all)
     return c
 
 
-def conc_consts(gates, nbufs, big=None, rebind=False, **off):
+def conc_consts(gates, nbufs, big=None, rebind=False, fault=None, defer_unlock=True, sticky=True, **off):
     c = {"NGates": "<- " + gates, "BigRec": "<- " + (big or "Small%d" % nbufs), "NBufs": nbufs, "ResetOnGet": "TRUE",
          "PutAfterWrite": "TRUE", "WriteUnderLock": "TRUE", "SingleWrite": "TRUE",
-         "RebindOnLarge": "TRUE" if rebind else "FALSE"}
+         "RebindOnLarge": "TRUE" if rebind else "FALSE", "Fault": "<- " + (fault or "Ok%d" % nbufs),
+         "DeferUnlock": "TRUE" if defer_unlock else "FALSE", "StickyError": "TRUE" if sticky else "FALSE"}
     for k in off:
         c[k] = "FALSE"
     return c
@@ -120,7 +126,8 @@ def run(ctx):
                 "gates on shared/sibling/chained handlers. T: 16 free-running goroutines under -race, output abstracted to attribute ids "
                 "and validated by HybridTrace.tla. distinct_nontrivial = distinct non-empty paths + distinct schedules + stress records")
     ctx.assumptions += [
-        "the io.Writer never fails and io.Writer / LogValuer / ReplaceAttr code supplied by the caller does not panic",
+        "the io.Writer may fail any Write (error, short write with error, panic recovered by the caller); it does not return "
+        "n < len without an error; LogValuer / ReplaceAttr code supplied by the caller does not panic",
         "a record value may be handed to Handle any number of times (same handler, siblings, concurrently) without Clone; the "
         "caller does not modify it meanwhile",
         "attribute keys/values come from a fixed table (quotes, newlines, control bytes, invalid UTF-8, empty/odd keys, groups, "
@@ -144,9 +151,10 @@ def run(ctx):
                 ctx.build_vh(race=False)
             finally:
                 plain_built.set()
-            rounds = [(16, 300)] if q else [(16, 1500), (16, 1500), (32, 600)]
+            # rounds >= 100 also have records whose Write returns an error
+            rounds = [(16, 300, 0), (16, 80, 100)] if q else [(16, 1500, 0), (16, 1500, 1), (32, 600, 2), (16, 200, 100)]
             runs = []
-            for i, (ng, nr) in enumerate(rounds):
+            for ng, nr, i in rounds:
                 tf, rf = ctx.scratch / ("stress%d.trace" % i), ctx.scratch / ("stress%d.res" % i)
                 ctx.vh(["c19", "stress", tf, rf, ng, nr, i], race=True, ok_codes=(0, 66), timeout=1800)
                 runs.append((tf, rf))
@@ -200,6 +208,20 @@ def run(ctx):
     else:
         c = log_consts("LevelsOne", "ThrInfo", [1], [1], 2, 4, 0, 4, sizes="SizesAll", relogs=1, emit_all=False)
     jobs.append(Job("gen-sizes", "HybridLogGen", "GSpec", c, invariants=["Emit", "LinesCorrect", "NoPanic", "ItemBound"]))
+    # Writer faults (environment): the next Write returns an error / writes short / panics (the caller recovers);
+    # every later record must be handled as if nothing had happened.  MC, then G over the same actions.
+    fl = dict(faults="FaultsAll", maxfaults=2, sizes="SizesLS", relogs=1)
+    # (StickyError = TRUE is the code: the shared json.Encoder keeps the first Write error; the obligation after a
+    # Write error is the weaker one both a sticky and a non-sticky implementation meet)
+    jobs.append(Job("log-mc-faults", "HybridLogMC", "Spec",
+                    log_consts("LevelsOne", "ThrInfo", [1], [0, 1], 3, 4, 0, 5 if q else 6, **fl), invariants=REC_INV, timeout=3600))
+    jobs.append(Job("log-mc-faults-nonsticky", "HybridLogMC", "Spec",
+                    log_consts("LevelsOne", "ThrInfo", [1], [0, 1], 3, 4, 0, 5 if q else 6, sticky=False, **fl),
+                    invariants=REC_INV + ["NoStaleError"], timeout=3600, counts=False))
+    jobs.append(Job("gen-faults", "HybridLogGen", "GSpec",
+                    log_consts("LevelsOne", "ThrInfo", [1], [1], 3, 3, 0, 5 if q else 6, faults="FaultsAll", maxfaults=2,
+                               relogs=1, emit_all=False),
+                    invariants=["Emit", "LinesCorrect", "StaleOnlyAfterError", "NotWedged", "LinesAreTheGoodCalls"]))
     # G: mixed derive / log (all 7 levels) / WithGroup paths, all prefixes
     if q:
         c = log_consts("LevelsAll", "ThrWarn", [0, 2], [1, 6], 3, 2, 1, 4, emit_all=True)
@@ -236,6 +258,23 @@ def run(ctx):
                         invariants=["Emit", "OneWriter", "LinesCorrect", "ItemsBound", "NoPanic"]))
     jobs.append(Job("conc-mc-3-large", "HybridConcMC", "Spec", conc_consts("G111", 3, big="Big110"), invariants=CONC_INV,
                     properties=["Termination"], deadlock=True))
+    # ... and with a writer that fails one or two of the records (error, short write, panic)
+    faultlayouts = [("G111", 3, "F030"), ("G011", 3, "F100"), ("G11", 2, "F30")] if q else \
+                   [("G111", 3, "F030"), ("G011", 3, "F100"), ("G11", 2, "F30"), ("G111", 3, "F300"), ("G111", 3, "F310"),
+                    ("G211", 3, "F020")]
+    for gates, np_, fault in faultlayouts:
+        jobs.append(Job("conc-gen-%s-%s" % (gates, fault), "HybridConcGen", "GSpec", conc_consts(gates, np_, fault=fault),
+                        invariants=["Emit", "OneWriter", "LinesCorrect", "ReturnsWeak", "LinesMatchReturns", "CleanAtEnd"]))
+    for fault in (["F310"] if q else ["F310", "F030", "F020"]):
+        jobs.append(Job("conc-mc-3-faults-" + fault, "HybridConcMC", "Spec", conc_consts("G111", 3, fault=fault),
+                        invariants=CONC_INV_WEAK, properties=["Termination"], deadlock=True))
+        jobs.append(Job("conc-mc-3-faults-%s-nonsticky" % fault, "HybridConcMC", "Spec",
+                        conc_consts("G111", 3, fault=fault, sticky=False),
+                        invariants=CONC_INV, properties=["Termination"], deadlock=True, counts=False))
+    if not q:
+        jobs.append(Job("conc-sim-G1111-F0300", "HybridConcGen", "GSpec", conc_consts("G1111", 4, fault="F0300"),
+                        invariants=["Emit", "OneWriter", "LinesCorrect", "ReturnsWeak", "LinesMatchReturns", "CleanAtEnd"],
+                        simulate=2000, depth=200))
     # G: every configured level x every record level on the root and derived handlers
     jobs.append(Job("gen-levels", "HybridLogGen", "GSpec",
                     log_consts("LevelsAll", "ThrAll", [0, 1], [1], 3, 1, 0, 3, emit_all=True),
@@ -259,6 +298,21 @@ def run(ctx):
                     invariants=("NoPanic",), wrong=("NoPanic",)))
     jobs.append(Job("conc-mc-rebind", "HybridConcMC", "Spec", conc_consts("G111", 3, big="Big100", rebind=True),
                     invariants=("NoPanic", "EveryRecordWritten"), wrong=("NoPanic", "EveryRecordWritten")))
+    # the mutex must be released by a deferred call: otherwise a panicking writer wedges the whole handler tree
+    jobs.append(Job("conc-mc-no-defer-unlock", "HybridConcMC", "Spec", conc_consts("G111", 3, fault="F030", defer_unlock=False),
+                    invariants=("CleanAtEnd",), properties=["Termination"], deadlock=True, wrong=("deadlock", "temporal", "CleanAtEnd")))
+    jobs.append(Job("log-mc-no-defer-unlock", "HybridLogMC", "Spec",
+                    log_consts("LevelsOne", "ThrInfo", [1], [1], 2, 3, 0, 4, faults="FaultsAll", maxfaults=1, defer_unlock=False),
+                    invariants=("NotWedged",), wrong=("NotWedged",)))
+    # Documentation (thorough): the full requirement "a Write error concerns only its own record" is refuted for
+    # the sticky encoder the code uses (side finding findings_pending/C19-writer-error-is-sticky.md, outside C19's
+    # quantifier, not a violation) and holds for a non-sticky one (the *-nonsticky runs above).
+    if not q:
+        jobs.append(Job("conc-mc-sticky-encoder-error", "HybridConcMC", "Spec", conc_consts("G111", 3, fault="F100", sticky=True),
+                        invariants=("Returns", "EveryRecordWritten"), wrong=("Returns", "EveryRecordWritten")))
+        jobs.append(Job("log-mc-sticky-encoder-error", "HybridLogMC", "Spec",
+                        log_consts("LevelsOne", "ThrInfo", [1], [1], 2, 3, 0, 4, faults="FaultsAll", maxfaults=1, sticky=True),
+                        invariants=("NoStaleError",), wrong=("NoStaleError",)))
     obs = ("LinesCorrect", "OneLinePerRecord")
     for name, off, allowed in (("no-reset", {"ResetOnGet": 1}, obs), ("early-put", {"PutAfterWrite": 1}, obs),
                                ("write-outside-lock", {"WriteUnderLock": 1}, ("OneWriter",)),
@@ -267,6 +321,9 @@ def run(ctx):
     run_jobs(ctx, d, jobs)
     byname = {j.name: j for j in jobs}
     ctx.extra["wrong_designs_tlc_finds"] = {j.name: j.res.violated for j in jobs if j.wrong}
+    ctx.assumptions.append("after the writer has returned an error (outside the property's quantifier) a Handle call may give up: "
+                           "return an error and write nothing; the code does (shared json.Encoder keeps the error) - side finding, "
+                           "see findings_pending/C19-writer-error-is-sticky.md")
 
     # ---- 2. replays: G (paths) and S (schedules) side by side -------------------------------------
     plain_built.wait()
@@ -295,7 +352,7 @@ def run(ctx):
     phase["tlc"] = round(time.time() - t0, 1)
     exhaustive_paths = 0
     gsum = {}
-    for name, exhaustive in [("gen-trees-" + t[0], True) for t in trees] + [("gen-records", True), ("gen-sizes", True), ("gen-mixed", True), ("gen-levels", True), ("gen-sim", False)]:
+    for name, exhaustive in [("gen-trees-" + t[0], True) for t in trees] + [("gen-records", True), ("gen-sizes", True), ("gen-faults", True), ("gen-mixed", True), ("gen-levels", True), ("gen-sim", False)]:
         path = byname[name].dir / "hybrid_vectors.ndjson"
         n = count_lines(path)
         rf = ctx.scratch / ("tree_%s.res" % name)
@@ -377,7 +434,8 @@ def run(ctx):
     stages = {"G": 0, "S": 0, "T": 0, "race": 0}
     for m in ctx.mismatches:
         k = m["key"]
-        stages["race" if k.startswith("race:") else "S" if k.startswith("sched ") else
+        st = (m.get("detail") or {}).get("stage") if isinstance(m.get("detail"), dict) else None
+        stages[st if st in stages else "race" if k.startswith("race:") else "S" if k.startswith("sched ") else
                "G" if k.startswith(("tree ", "Enabled(")) else "T"] += 1
     ctx.extra["mismatches_by_stage"] = stages
     if ctx.mismatches:
